@@ -487,6 +487,7 @@ tdigest<T, A> tdigest<T, A>::deserialize_compat(std::istream& is, const A& alloc
   // this method was called because the first three bytes were zeros
   // so read one more byte to see if it looks like the reference implementation format
   const auto type = read<uint8_t>(is);
+  if (!is.good()) throw std::runtime_error("error reading from std::istream");
   if (type != COMPAT_DOUBLE && type != COMPAT_FLOAT) {
     throw std::invalid_argument("unexpected sketch preamble: 0 0 0 " + std::to_string(type));
   }
@@ -495,6 +496,7 @@ tdigest<T, A> tdigest<T, A>::deserialize_compat(std::istream& is, const A& alloc
     const auto max = read_big_endian<double>(is);
     const auto k = static_cast<uint16_t>(read_big_endian<double>(is));
     const auto num_centroids = read_big_endian<uint32_t>(is);
+    if (!is.good()) throw std::runtime_error("error reading from std::istream");
     vector_centroid centroids(num_centroids, centroid(0, 0), allocator);
     uint64_t total_weight = 0;
     for (auto& c: centroids) {
@@ -503,6 +505,7 @@ tdigest<T, A> tdigest<T, A>::deserialize_compat(std::istream& is, const A& alloc
       c = centroid(mean, weight);
       total_weight += weight;
     }
+    if (!is.good()) throw std::runtime_error("error reading from std::istream");
     return tdigest(false, k, min, max, std::move(centroids), total_weight, vector_t(allocator));
   }
   // COMPAT_FLOAT: compatibility with asSmallBytes()
@@ -513,6 +516,7 @@ tdigest<T, A> tdigest<T, A>::deserialize_compat(std::istream& is, const A& alloc
   // they can be derived from k in the constructor
   read<uint32_t>(is); // unused
   const auto num_centroids = read_big_endian<uint16_t>(is);
+  if (!is.good()) throw std::runtime_error("error reading from std::istream");
   vector_centroid centroids(num_centroids, centroid(0, 0), allocator);
   uint64_t total_weight = 0;
   for (auto& c: centroids) {
@@ -521,6 +525,7 @@ tdigest<T, A> tdigest<T, A>::deserialize_compat(std::istream& is, const A& alloc
     c = centroid(mean, weight);
     total_weight += weight;
   }
+  if (!is.good()) throw std::runtime_error("error reading from std::istream");
   return tdigest(false, k, min, max, std::move(centroids), total_weight, vector_t(allocator));
 }
 
